@@ -79,6 +79,18 @@ func c09Catalogue() []Shape {
 		add(c.name+"@func-in-foreach", "function w1() { "+c.text+" return 1; } foreach q in 1..3 { z = w1(); } return z;", false)
 		add(c.name+"@func-in-loop-in-func", "function w2() { "+c.text+" return 1; } function w1() { n = 0; while (n < 2) { n++; z = w2(); } return z; } return w1();", false)
 	}
+	// no loop at all: a tree of calls (t1 calls t2 twice, … thirty levels:
+	// 2^30 leaf calls), spinning through call entry and return only
+	for _, b := range bodies {
+		var sb strings.Builder
+		for i := 1; i < 30; i++ {
+			fmt.Fprintf(&sb, "function t%d() { x = t%d(); x = t%d(); return x; } ", i, i+1, i+1)
+		}
+		fmt.Fprintf(&sb, "function t30() { %s return 1; } ", b.t)
+		add("call-tree/"+b.n+"@top", sb.String()+"z = t1(); return z;", false)
+		add("call-tree/"+b.n+"@func", sb.String()+"function w1() { z = t1(); return z; } return w1();", false)
+		add("call-tree/"+b.n+"@if-in-foreach", sb.String()+"foreach q in [1] { if (true) { z = t1(); } } return z;", false)
+	}
 	// loops whose body is a call: spinning through call entry / return
 	for _, b := range bodies {
 		add("call-in-loop/"+b.n, "function w1() { q = 0; while (q < 3) { q++; "+b.t+" } return q; } while (true) { x = w1(); }", false)
